@@ -16,10 +16,15 @@
 (*     and - because the whole source is read and sorted before the first  *)
 (*     data row is delivered - a pass that delivered at least one data row *)
 (*     has (with cache=True) filled the cache, completed or not.           *)
+(*     A pass during which the SOURCE FAILS (raises while being read) ends *)
+(*     before the sort has finished: nothing may be cached from it, or a   *)
+(*     later pass would replay an incomplete result.  Variant "eager"      *)
+(*     (negative test) is the design that hands the chunk list to the view *)
+(*     while it is still being written.                                    *)
 (***************************************************************************)
 EXTENDS Naturals, Sequences, FiniteSets, SequencesExt, Sorting, Json, TLC
 
-CONSTANTS MaxSteps, MaxRows, Vals
+CONSTANTS MaxSteps, MaxRows, Vals, CVariant   \* CVariant: "atomic" (petl) | "eager" (negative test)
 
 KeyVal(n) == IF n = 0 THEN NoneV ELSE Scalar("num", n)
 AllSeqs == UNION {[1..n -> Vals] : n \in 0..MaxRows}
@@ -32,49 +37,68 @@ ASSUME \A s \in AllSeqs : /\ IsSortedKeys(Keys(s), FALSE, FALSE) => StableOrder(
 VARIABLES cache,      \* the view's cache argument
           ver,        \* current version of the source
           cached,     \* version held in the view's cache, 0 = empty
+          whole,      \* the cache holds the COMPLETE sorted result of version `cached`
           steps,
           ev,         \* last event: [kind, shown, pulled]
           firstDone,  \* version shown by the first COMPLETED pass (0 = none yet) - history variable
           hist        \* the behaviour so far as a sequence of events (for spec -> code replay only;
                       \* hidden from the exhaustive check by VIEW)
-vars == <<cache, ver, cached, steps, ev, firstDone, hist>>
-ViewNoHist == <<cache, ver, cached, steps, ev, firstDone>>
+vars == <<cache, ver, cached, whole, steps, ev, firstDone, hist>>
+ViewNoHist == <<cache, ver, cached, whole, steps, ev, firstDone>>
 
-Init == /\ cache \in BOOLEAN /\ ver = 1 /\ cached = 0 /\ steps = 0
-        /\ ev = [kind |-> "none", shown |-> 0, pulled |-> FALSE] /\ firstDone = 0 /\ hist = <<>>
+NoEv == [kind |-> "none", shown |-> 0, pulled |-> FALSE, complete |-> TRUE]
+Init == /\ cache \in BOOLEAN /\ ver = 1 /\ cached = 0 /\ whole = TRUE /\ steps = 0
+        /\ ev = NoEv /\ firstDone = 0 /\ hist = <<>>
 
 Edit == /\ steps < MaxSteps /\ steps' = steps + 1
         /\ ver' = ver + 1
-        /\ ev' = [kind |-> "edit", shown |-> 0, pulled |-> FALSE]
-        /\ hist' = Append(hist, [a |-> "edit", k |-> 0, shown |-> 0, pulled |-> FALSE, mustreplay |-> FALSE])
-        /\ UNCHANGED <<cache, cached, firstDone>>
+        /\ ev' = [kind |-> "edit", shown |-> 0, pulled |-> FALSE, complete |-> TRUE]
+        /\ hist' = Append(hist, [a |-> "edit", k |-> 0, shown |-> 0, pulled |-> FALSE, mustreplay |-> FALSE, raised |-> FALSE])
+        /\ UNCHANGED <<cache, cached, whole, firstDone>>
 
 FromCache == cache /\ cached # 0
 
+FullBody(name) ==
+  /\ IF FromCache
+     THEN /\ ev' = [kind |-> "full", shown |-> cached, pulled |-> FALSE, complete |-> whole]
+          /\ UNCHANGED <<cached, whole>>
+     ELSE /\ ev' = [kind |-> "full", shown |-> ver, pulled |-> TRUE, complete |-> TRUE]
+          /\ cached' = IF cache THEN ver ELSE 0
+          /\ whole' = TRUE
+  /\ firstDone' = IF firstDone = 0 THEN ev'.shown ELSE firstDone
+  /\ hist' = Append(hist, [a |-> name, k |-> 0, shown |-> ev'.shown, pulled |-> ev'.pulled,
+                           mustreplay |-> cache /\ firstDone # 0, raised |-> FALSE])
 FullPass ==
   /\ steps < MaxSteps /\ steps' = steps + 1
+  /\ FullBody("full")
+  /\ UNCHANGED <<cache, ver>>
+
+\* a pass during which the source raises after some data rows (some chunks may already have been written).
+\* Served from the cache the source is not touched and the pass is an ordinary full pass.
+FailPass ==
+  /\ steps < MaxSteps /\ steps' = steps + 1
   /\ IF FromCache
-     THEN /\ ev' = [kind |-> "full", shown |-> cached, pulled |-> FALSE]
-          /\ UNCHANGED cached
-     ELSE /\ ev' = [kind |-> "full", shown |-> ver, pulled |-> TRUE]
-          /\ cached' = IF cache THEN ver ELSE 0
-  /\ firstDone' = IF firstDone = 0 THEN ev'.shown ELSE firstDone
-  /\ hist' = Append(hist, [a |-> "full", k |-> 0, shown |-> ev'.shown, pulled |-> ev'.pulled,
-                           mustreplay |-> cache /\ firstDone # 0])
+     THEN FullBody("fail")
+     ELSE /\ ev' = [kind |-> "fail", shown |-> 0, pulled |-> TRUE, complete |-> TRUE]
+          /\ cached' = IF CVariant = "eager" /\ cache THEN ver ELSE 0     \* clearcache(), nothing assigned
+          /\ whole' = (CVariant # "eager")
+          /\ hist' = Append(hist, [a |-> "fail", k |-> 0, shown |-> 0, pulled |-> TRUE, mustreplay |-> FALSE, raised |-> TRUE])
+          /\ UNCHANGED firstDone
   /\ UNCHANGED <<cache, ver>>
 
 \* a pass abandoned after the header (k = 0) or after at least one data row (k = 1)
 PartialPass(k) ==
   /\ steps < MaxSteps /\ steps' = steps + 1
   /\ IF FromCache
-     THEN /\ ev' = [kind |-> "partial", shown |-> cached, pulled |-> FALSE]
-          /\ UNCHANGED cached
-     ELSE /\ ev' = [kind |-> "partial", shown |-> ver, pulled |-> TRUE]
+     THEN /\ ev' = [kind |-> "partial", shown |-> cached, pulled |-> FALSE, complete |-> whole]
+          /\ UNCHANGED <<cached, whole>>
+     ELSE /\ ev' = [kind |-> "partial", shown |-> ver, pulled |-> TRUE, complete |-> TRUE]
           /\ cached' = IF k = 0 THEN 0 ELSE (IF cache THEN ver ELSE 0)
-  /\ hist' = Append(hist, [a |-> "partial", k |-> k, shown |-> ev'.shown, pulled |-> ev'.pulled, mustreplay |-> FALSE])
+          /\ whole' = TRUE
+  /\ hist' = Append(hist, [a |-> "partial", k |-> k, shown |-> ev'.shown, pulled |-> ev'.pulled, mustreplay |-> FALSE, raised |-> FALSE])
   /\ UNCHANGED <<cache, ver, firstDone>>
 
-Next == Edit \/ FullPass \/ \E k \in {0, 1} : PartialPass(k)
+Next == Edit \/ FullPass \/ FailPass \/ \E k \in {0, 1} : PartialPass(k)
 Spec == Init /\ [][Next]_vars
 ----------------------------------------------------------------------------
 \* C11, cache clause (property level, over FULL passes only):
@@ -84,6 +108,9 @@ NoCacheFresh == ~cache /\ ev.kind = "full" => ev.shown = ver /\ ev.pulled
 CacheReplays == [][cache /\ firstDone # 0 /\ ev'.kind = "full" => ~ev'.pulled /\ ev'.shown = firstDone]_vars
 \* ... and a pass that does read the sources shows their current contents
 ReadsAreCurrent == ev.kind \in {"full", "partial"} /\ ev.pulled => ev.shown = ver
+\* every completed pass delivers the COMPLETE result of the version it shows (in particular after a failed pass)
+PassesAreComplete == ev.kind = "full" => ev.complete
+CacheIsWhole == cached # 0 => whole
 \* spec -> code: every maximal behaviour, printed once, with the observations the model predicts
 EmitBehaviour == steps = MaxSteps => PrintT(ToJson([cache |-> cache, hist |-> hist]))
 =============================================================================
